@@ -227,6 +227,10 @@ class SymVC:
         if not bool(self._b(cond)):  # forks / decides
             raise PathEnd()
 
+    def fork(self, cond):
+        """case split of the contract text itself (each case gets its own obligation names)"""
+        return bool(self._b(cond))
+
     def linear_map(self, outputs, inputs):
         """outputs (bit-likes) as GF(2)-affine functions of the input bits (fresh atoms): returns (rows, consts) with
         rows[i] = bitmask over inputs (bit j set: output i depends on input j).  Undecided if some output is not affine
@@ -491,6 +495,9 @@ class NativeVC:
     def assume(self, cond):
         if not cond:
             raise PathEnd()
+
+    def fork(self, cond):
+        return bool(cond)
 
     def prove(self, clause, cond, note=None):
         self.checked.append(clause)
